@@ -54,6 +54,26 @@ def IntConst.body (k : IntConst) : List Char :=
 
 def IntConst.render (k : IntConst) : List Char := k.body ++ k.suffix.toList
 
+/-- characters that cannot start a suffix without changing how the digits before it are read: a digit, a
+hexadecimal letter, the base letters and the exponent letters -/
+def suffixHeadBad : List Char := "0123456789abcdefABCDEFxXbBeEpP".toList
+
+/-- the shape of a suffix, known or unknown: letters, digits and underscores, not starting with one of
+`suffixHeadBad` -/
+def suffixShape (s : List Char) : Bool :=
+  s.all (fun c => wordChars.contains c) && (match s with | c :: _ => !suffixHeadBad.contains c | [] => true)
+
+/-- what is taken for ONE integer constant, well-formed or not: as `WF`, except that the suffix is any text of
+suffix shape (known or unknown) and that the digits after `0` / `0b` are any decimal digits (an `8` in an octal
+constant, a `2` in a binary one: the "digit not allowed in its base" family) -/
+def IntConst.Shape (k : IntConst) : Prop :=
+  suffixShape k.suffix.toList = true ∧
+  match k.base with
+  | .dec => (∃ d ds, k.digits = d :: ds ∧ d ∈ nonzeroDigits ∧ ∀ c ∈ ds, isDec c = true)
+  | .oct => ∀ c ∈ k.digits, isDec c = true
+  | .hex x => (x = 'x' ∨ x = 'X') ∧ k.digits ≠ [] ∧ ∀ c ∈ k.digits, isHex c = true
+  | .bin b => (b = 'b' ∨ b = 'B') ∧ k.digits ≠ [] ∧ ∀ c ∈ k.digits, isDec c = true
+
 /-- what may follow a constant without extending it: not an identifier character, not a
 dot, not a sign (a sign after `…e` would be a maximal-munch error), not a quote -/
 def boundaryOK (rest : List Char) : Prop :=
